@@ -222,6 +222,8 @@ class Model(object):
             if n in info[k]:
                 cid[(k, n)] = ("M", cid[(k, n)], md["field"], md.get("idx", 0), md["value"], md.get("force_comp"))
                 flags.add("modify")
+                if md["field"] == "add":
+                    flags.add("modify_add")
             else:
                 flags.add("modify_missing")
         first_def = {}
@@ -932,7 +934,7 @@ def op_modify(draw, M):
         f = "add"
     lo, hi = MOD_RANGE[f]
     v = draw(st.integers(lo, hi)) if f in INT_FIELDS else draw(_un(lo, hi, 4) if lo <= 0 else _lg(lo, hi, 4))
-    md = {"kind": k, "n": None if (n == 1 and draw(st.integers(0, 3)) == 0) else n, "field": f, "idx": draw(st.integers(0, 3)), "value": v}
+    md = {"kind": k, "n": None if (n == 1 and draw(st.integers(0, 3)) == 0) else n, "field": f, "idx": draw(st.integers(0, 9)), "value": v}
     op = {"mods": [md]}
     if draw(st.integers(0, 4)) == 0:
         # modify and copy in one simulation: the modification is read first, so the copy receives the modified content
